@@ -348,7 +348,13 @@ func prepareCorrectionOptions(o *CorrectionOptions, opts ...schema.Option) error
 
 	// Copy over the stamps from the previous header
 	if o.Head != nil && len(o.Head.Stamps) > 0 {
-		o.Stamps = append(o.Stamps, o.Head.Stamps...)
+		for _, s := range o.Head.Stamps {
+			if s == nil {
+				continue
+			}
+			cs := *s // copy, never share with the source envelope's header
+			o.Stamps = append(o.Stamps, &cs)
+		}
 	}
 
 	// If we have a raw json object, this will override any of the other options
